@@ -121,8 +121,12 @@ pub fn single_faults_compound(base: &[u8]) -> Vec<Script> {
                 out.push(vec![Fault::Hdr { tile: j, field: HdrField::Pt, val: pt }]);
             }
         }
-        // body damage that makes only tile j unparseable: a padding bit with a zero count
+        // body damage that makes only tile j unparseable: a padding bit with a zero count; and
+        // padding counts that do not fit the tile (acceptance of the datagram must not depend on them)
         out.push(vec![Fault::Trailer { tile: j, val: 0, p_bit: Some(true) }]);
+        for val in [1u8, 4, (*l).min(255) as u8, (*l + 1).min(255) as u8, 255] {
+            out.push(vec![Fault::Trailer { tile: j, val, p_bit: Some(true) }]);
+        }
         out.push(vec![Fault::Hdr { tile: j, field: HdrField::Count, val: 31 }]);
     }
     out
